@@ -225,7 +225,19 @@ func observe(m *cors.Middleware, err error, probes []reqT) SX {
 // model side by the specification (violations c <> []).
 func genInvalidConfig(r R) cors.Config {
 	c := genValidConfig(r)
-	switch r.Intn(6) {
+	switch r.Intn(8) {
+	case 6:
+		if r.chance(1, 2) {
+			c.RequestHeaders = append(c.RequestHeaders, r.pick(hdrNamesUnicodeFold))
+		} else {
+			c.RequestHeaders = append(c.RequestHeaders, genForbiddenHdrName(r))
+		}
+	case 7:
+		if r.chance(1, 2) {
+			c.ResponseHeaders = append(c.ResponseHeaders, r.pick(hdrNamesUnicodeFold))
+		} else {
+			c.Methods = append(c.Methods, r.pick(methodsUnicodeFold))
+		}
 	case 0:
 		c.Origins = append(c.Origins, r.pick(originsDefect[:30]))
 	case 1:
@@ -257,6 +269,9 @@ func minimalInvalidations(a cors.Config) []cors.Config {
 	add(func(c *cors.Config) { c.PreflightSuccessStatus = 199 })
 	add(func(c *cors.Config) { c.Methods = append(c.Methods, "CONNECT") })
 	add(func(c *cors.Config) { c.RequestHeaders = append(c.RequestHeaders, "Cookie") })
+	add(func(c *cors.Config) { c.RequestHeaders = append(c.RequestHeaders, "X-Api-\u212Aey") })
+	add(func(c *cors.Config) { c.RequestHeaders = append(c.RequestHeaders, "Sec-"+strings.Repeat("a", 40)) })
+	add(func(c *cors.Config) { c.ResponseHeaders = append(c.ResponseHeaders, "x-\u017Fecret") })
 	add(func(c *cors.Config) { c.ResponseHeaders = append(c.ResponseHeaders, "Set-Cookie") })
 	add(func(c *cors.Config) { c.PrivateNetworkAccess, c.PrivateNetworkAccessInNoCORSModeOnly = true, true })
 	add(func(c *cors.Config) { c.Credentialed = !c.Credentialed })
